@@ -316,7 +316,8 @@ def make_send(steps: int):
                     if tunnel.communication_channel is not None:
                         srv.send(DisconnectRequest(tunnel.communication_channel))
                 elif ev == "server-session-close":
-                    srv.send_wrapped_raw(bytes.fromhex("0610095400080500"))
+                    if srv.key is not None:   # (no session on this connection yet: nothing to close)
+                        srv.send_wrapped_raw(bytes.fromhex("0610095400080500"))
                 elif ev == "user-disconnect":
                     done = True
                     w.spawn(tunnel.disconnect(), name="harness-disconnect")
